@@ -144,3 +144,21 @@ Proof.
 Qed.
 
 End Tail.
+
+(* ---- the same statements for the concrete surface equality of C08/SurfEq.v read at R:
+   symmetry and transitivity are theorems there, not hypotheses ------------------------------ *)
+From T4V Require Import Base.Scalar C08.SurfEq.
+From Coq Require Import Reals.
+
+Theorem prune_preserves_wf_R skip_dedup (surfs : stable (spayload R)) vols u0 u1 surfs' vols' ren' :
+  refs_ok surfs vols -> helpers_ok Req_payload surfs u0 u1 ->
+  prune Req_payload skip_dedup surfs vols u0 u1 = Ok (surfs', vols', ren') ->
+  refs_ok surfs' vols' /\ sides_ok vols'.
+Proof. apply (prune_preserves_wf Req_payload Req_payload_sym Req_payload_trans). Qed.
+
+Theorem convert_tail_wf_R skip_dedup u0 u1 (w : wstate (spayload R)) :
+  stage0_ok Req_payload u0 u1 w ->
+  exists o, convert_tail Req_payload skip_dedup u0 u1 w = Ok o /\
+    (o = Died false [] EValue \/
+     exists f, wf_file f /\ (o = Complete f \/ exists e, o = Raised f e /\ f_bc f = None)).
+Proof. apply (convert_tail_wf Req_payload Req_payload_sym Req_payload_trans). Qed.
